@@ -379,9 +379,12 @@ def model_save_quantized_weights(model, filename=None, custom_objects={}):
             pool_area = np.prod(layer.pool_size)
         else:
           pool_area = layer.compute_pooling_area(input_shape=layer.input_shape)
-        saved_weights[
-            layer.name]["q_mult_factor"] = layer.average_quantizer_internal(
-                1.0 / pool_area).numpy()
+        if layer.average_quantizer_internal is not None:
+          saved_weights[
+              layer.name]["q_mult_factor"] = layer.average_quantizer_internal(
+                  1.0 / pool_area).numpy()
+        else:
+          saved_weights[layer.name]["q_mult_factor"] = 1.0 / pool_area
         saved_weights[layer.name]["mult_factor"] = 1.0 / pool_area
         saved_weights[layer.name]["pool_area"] = pool_area
 
